@@ -200,4 +200,99 @@ theorem loop_reports_only_confirmed (cs : Consts) (c : Case) (sel : Selection)
     obtain ⟨p1, _, _, p4, _, p6, _⟩ := hprops m hm
     exact ⟨m, hscr m p1, hincl m hm, p4, p6, e⟩
 
+/-! ## Attempts are independent -/
+
+/-- a done message for another attempt number is never recorded -/
+theorem receive_other_attempt (v : C35.Variant) (p : C35.Params) (done : C35.Done) (m : C35.Msg)
+    (h : m.attempt ≠ p.attempt) : C35.receive v p done m = done := by
+  unfold C35.receive C35.isValid C35.wellFormed
+  have : (m.attempt == p.attempt) = false := by simpa using h
+  simp [this]
+
+theorem runWait_filter (v : C35.Variant) (p : C35.Params) (msgs : List C35.Msg)
+    (tail : List C35.Ev) (done : C35.Done) :
+    C35.runWait v p done (msgs.map C35.Ev.recv ++ tail) =
+      C35.runWait v p done ((msgs.filter (fun m => m.attempt == p.attempt)).map C35.Ev.recv ++ tail) := by
+  induction msgs generalizing done with
+  | nil => rfl
+  | cons m rest ih =>
+    by_cases hm : m.attempt = p.attempt
+    · have : (m.attempt == p.attempt) = true := by simpa using hm
+      simp only [List.map_cons, List.cons_append, List.filter_cons, this, if_true, C35.runWait]
+      exact ih _
+    · have : (m.attempt == p.attempt) = false := by simpa using hm
+      simp only [List.map_cons, List.cons_append, List.filter_cons, this, C35.runWait,
+        receive_other_attempt v p done m hm]
+      exact ih _
+
+/-- drop from the script of attempt `k` every done message that carries another attempt number -/
+def pruneAttempt (k : Nat) (a : Attempt) : Attempt :=
+  { a with others := a.others.filter (fun o => o.attempt == k) }
+
+def pruneFrom : Nat → List Attempt → List Attempt
+  | _, [] => []
+  | k, a :: rest => pruneAttempt k a :: pruneFrom (k + 1) rest
+
+theorem scenario_prune (cs : Consts) (c : Case) (sel : Selection) (k : Nat) (a : Attempt)
+    (tailMsgs : List C35.Msg) :
+    C35.scenario .fixed (attemptParams cs c sel k a) (a.others.map otherMsg ++ tailMsgs) [] =
+    C35.scenario .fixed (attemptParams cs c sel k (pruneAttempt k a))
+      ((pruneAttempt k a).others.map otherMsg ++ tailMsgs) [] := by
+  have hp : attemptParams cs c sel k (pruneAttempt k a) = attemptParams cs c sel k a := rfl
+  have hf : (a.others.filter (fun o => o.attempt == k)).map otherMsg =
+      (a.others.map otherMsg).filter (fun m => m.attempt == (attemptParams cs c sel k a).attempt) := by
+    rw [List.filter_map]; rfl
+  unfold C35.scenario
+  simp only [pruneAttempt, List.append_nil, List.map_append, List.append_assoc, hf]
+  rw [runWait_filter]
+  rfl
+
+/-- **loop_attempts_independent**: done messages that carry the number of another attempt —
+    late confirmations of an earlier attempt, early ones of a later attempt — have no effect on
+    any attempt: the whole run (every `listen`, the report) is the same as for the script from
+    which they are removed.  This is what the repairs 81ec0fd / 750971a guarantee in the code:
+    no listener of another attempt can record into this attempt's confirmations. -/
+theorem loop_attempts_independent (cs : Consts) (c : Case) (sel : Selection) (as : List Attempt)
+    (k0 : Nat) : runFrom cs c sel k0 (pruneFrom k0 as) = runFrom cs c sel k0 as := by
+  induction as generalizing k0 with
+  | nil => rfl
+  | cons a rest ih =>
+    simp only [pruneFrom, runFrom]
+    rw [show (pruneAttempt k0 a).ready = a.ready from rfl, ih (k0 + 1)]
+    by_cases hready : a.ready.length < c.t
+    · simp only [hready, if_true]
+    · simp only [hready, if_false]
+      by_cases hself : (sel k0 a.ready).contains c.self = true
+      · have hself' : c.self ∈ sel k0 a.ready := by simpa using hself
+        cases hown : a.own with
+        | none =>
+          have h1 : attemptMsgs c k0 (pruneAttempt k0 a) (sel k0 a.ready) = none := by
+            simp [attemptMsgs, hself', pruneAttempt, hown]
+          have h2 : attemptMsgs c k0 a (sel k0 a.ready) = none := by
+            simp [attemptMsgs, hself', hown]
+          rw [h1, h2]
+        | some p =>
+          obtain ⟨e, s⟩ := p
+          have h1 : attemptMsgs c k0 (pruneAttempt k0 a) (sel k0 a.ready) =
+              some ((pruneAttempt k0 a).others.map otherMsg ++
+                [⟨c.self, c.self, msgConst, k0, s, e⟩]) := by
+            simp [attemptMsgs, hself', pruneAttempt, hown]
+          have h2 : attemptMsgs c k0 a (sel k0 a.ready) =
+              some (a.others.map otherMsg ++ [⟨c.self, c.self, msgConst, k0, s, e⟩]) := by
+            simp [attemptMsgs, hself', hown]
+          rw [h1, h2]
+          simp only
+          rw [← scenario_prune cs c sel k0 a [⟨c.self, c.self, msgConst, k0, s, e⟩]]
+      · have hself' : c.self ∉ sel k0 a.ready := by simpa using hself
+        have h1 : attemptMsgs c k0 (pruneAttempt k0 a) (sel k0 a.ready) =
+            some ((pruneAttempt k0 a).others.map otherMsg) := by
+          simp [attemptMsgs, hself']
+        have h2 : attemptMsgs c k0 a (sel k0 a.ready) = some (a.others.map otherMsg) := by
+          simp [attemptMsgs, hself']
+        rw [h1, h2]
+        simp only
+        have := scenario_prune cs c sel k0 a []
+        simp only [List.append_nil] at this
+        rw [← this]
+
 end KeepVerif.C35Loop
